@@ -36,8 +36,9 @@ EMPTY = ("empty",)
 
 
 def denote(t):
-    """Normal form of a region term under the laws of set algebra that do not depend on geometry:
-    the empty path is the empty set, X op X, X op empty; `simplified` does not change the region."""
+    """Normal form of a region term under the laws of set algebra that do not depend on geometry: the empty path is the empty set;
+    union and intersection are associative, commutative and idempotent (a regrouped fold is the same region); A - B - C = A - (B u C);
+    X - X and X - everything-including-X are empty; `simplified` does not change the region."""
     if not isinstance(t, tuple):
         return t
     if t[0] == "fill":
@@ -46,21 +47,34 @@ def denote(t):
         return denote(t[1])
     if t[0] == "op":
         kind, a, b = t[1], denote(t[2]), denote(t[3])
-        if kind.endswith("UNION"):
-            if a == EMPTY:
-                return b
-            if b == EMPTY or a == b:
-                return a
-        elif kind.endswith("INTERSECTION"):
-            if a == EMPTY or b == EMPTY:
+        if kind.endswith("UNION") or kind.endswith("INTERSECTION"):
+            tag = "U" if kind.endswith("UNION") else "I"
+            ops = []
+            for x in (a, b):
+                for y in (x[1] if isinstance(x, tuple) and x and x[0] == tag else (x,)):
+                    if y not in ops:
+                        ops.append(y)
+            if tag == "U":
+                ops = [y for y in ops if y != EMPTY]
+                if not ops:
+                    return EMPTY
+            elif EMPTY in ops:
                 return EMPTY
-            if a == b:
-                return a
-        elif kind.endswith("DIFFERENCE"):
+            if len(ops) == 1:
+                return ops[0]
+            return (tag, tuple(sorted(ops, key=repr)))
+        if kind.endswith("DIFFERENCE"):
             if a == EMPTY or a == b:
                 return EMPTY
             if b == EMPTY:
                 return a
+            base, subs = (a[1], list(a[2][1]) if isinstance(a[2], tuple) and a[2] and a[2][0] == "U" else [a[2]]) if isinstance(a, tuple) and a and a[0] == "D" else (a, [])
+            for y in (b[1] if isinstance(b, tuple) and b and b[0] == "U" else (b,)):
+                if y not in subs:
+                    subs.append(y)
+            if base in subs:
+                return EMPTY
+            return ("D", base, subs[0] if len(subs) == 1 else ("U", tuple(sorted(subs, key=repr))))
         return ("op", kind, a, b)
     return t
 
@@ -100,6 +114,9 @@ def check_pathops(repo: Repo, rep: Report, rules: Dict[str, str]):
     for k in (1, 2, 3):
         for od in (["evenodd", "nonzero", "evenodd"], ["nonzero", "nonzero", "nonzero"], ["nonzero", "evenodd", "nonzero"], ["evenodd", "evenodd", "evenodd"]):
             cases.append(([_cmds(i) for i in range(k)], od[:k]))
+    # longer operand lists: a fold that is regrouped (pairwise, tree-shaped) differs from the left fold for difference from four operands on
+    for k in (4, 5, 7):
+        cases.append(([_cmds(i) for i in range(k)], (["nonzero", "evenodd"] * 4)[:k]))
     cases.append(([_cmds(0), []], ["nonzero", "nonzero"]))          # an operand without geometry
     cases.append(([[], _cmds(1)], ["nonzero", "evenodd"]))
     cases.append(([_cmds(0), _cmds(0)], ["evenodd", "nonzero"]))    # the same outline under two rules
